@@ -26,10 +26,10 @@ Definition mm_int_route (dev_cuda dev_cpu ge24 a_qint8 w_qint8 : bool) (tokens i
 (* fingerprints of the numeric route bodies the exact-arithmetic model (Proofs/MMProofs.v) was written against *)
 Definition mm_prints : list (string * string) := [
   ("qbytes_mm"%string, "64a2805c47dd2cf8"%string);
-  ("qbytes_int_mm"%string, "0a0ced4b92c647de"%string);
+  ("qbytes_int_mm"%string, "c6cafb4939134d42"%string);
   ("qbytes_int8pack_mm"%string, "a57519cf4fd11f5a"%string);
   ("qbytes_mm_impl_default"%string, "5d41f850f7a5b9d8"%string);
-  ("aten.mm"%string, "a3e340b614bd939e"%string);
+  ("aten.mm"%string, "70b595f473655d10"%string);
   ("aten.bmm"%string, "3eb1ab1fb152c011"%string);
   ("QTensorLinear.forward"%string, "462a7dfd205c3ccc"%string);
   ("linear"%string, "047e6587fc053914"%string);
